@@ -1,5 +1,6 @@
 (* T1 tie for utils/edge_case_handling.py *)
 From Pan Require Import Base.Common Base.Sx Model.MetricTable Model.EdgeCase Gen.EdgeCase.
+From Coq Require Import ZifyBool.
 Open Scope Z_scope.
 
 Lemma geneq_ecr_value r : gen_ecr_value r = ecr_value r.
@@ -19,8 +20,10 @@ Proof. destruct d, a, b, c, e; reflexivity. Qed.
 Lemma geneq_mh_dispatch tp np nr :
   gen_mh_dispatch tp np nr = if negb (tp =? 0) then Some None else option_map Some (classify np nr).
 Proof.
+  (* robust against reordering of the (mutually exclusive) branches: contradictory cases are discharged arithmetically *)
   unfold gen_mh_dispatch, classify.
-  destruct (tp =? 0), (np + nr =? 0), (nr =? 0), (np =? 0), (0 <? np), (0 <? nr); reflexivity.
+  repeat match goal with |- context[if ?c then _ else _] => destruct c eqn:? end;
+    cbn [negb option_map andb] in *; first [reflexivity | discriminate | exfalso; lia].
 Qed.
 
 Lemma geneq_mh_call h tp np nr :
